@@ -87,7 +87,7 @@ func cmdHandoff(args []string) {
 		a := aio.New(100, m)
 		cfg := &sender.Config{Size: 100}
 		cfg.Plugins.Http.Enabled = true
-		cfg.Plugins.Http.Config = httpPlugin.Config{Size: 100, Workers: 1, Timeout: 200 * time.Millisecond}
+		cfg.Plugins.Http.Config = httpPlugin.Config{Size: 100, Workers: 1, Timeout: 2 * time.Second}
 		cfg.Plugins.Poll.Enabled = false
 		sn, err := sender.New(a, m, cfg)
 		if err != nil {
